@@ -3,6 +3,7 @@ package main
 import (
 	"encoding/json"
 	"fmt"
+	"strings"
 
 	"mltwist/internal/exprtransform"
 	"mltwist/pkg/expr"
@@ -34,6 +35,24 @@ func c13Run(ref treeRef) (*eng.Fail, int) {
 	}
 	if ir.Show(e) != ref.Show {
 		return &eng.Fail{Sig: "Possibilities input-mutated", What: "input changed", Case: ref}, 0
+	}
+	// a second call on the same object must give the same alternatives (no state kept between calls)
+	var again []expr.Expr
+	if p, stack := eng.Catch(func() { again = exprtransform.Possibilities(e) }); p != nil {
+		return &eng.Fail{Sig: "Possibilities panic " + eng.PanicSite(stack), What: fmt.Sprintf("second Possibilities(%s) panics: %v", ref.Show, p), Case: ref}, 0
+	}
+	show := func(l []expr.Expr) string {
+		var sb strings.Builder
+		for _, a := range l {
+			if a != nil {
+				sb.WriteString(ir.Show(a))
+			}
+			sb.WriteString(";")
+		}
+		return sb.String()
+	}
+	if a, b := show(alts), show(again); a != b {
+		return &eng.Fail{Sig: "Possibilities not-repeatable", What: fmt.Sprintf("Possibilities(%s) gives {%s} and then {%s}", ref.Show, a, b), Case: ref}, 0
 	}
 	for _, a := range alts {
 		if a == nil {
@@ -70,7 +89,7 @@ func c13Run(ref treeRef) (*eng.Fail, int) {
 
 func init() {
 	checks["C13"] = eng.Check{
-		Rule:        "Possibilities(e) on every tree of the C09 spaces (conditionals as operands, branches, conditions and memory-load addresses; up to 2 internal nodes quick, 3 thorough; plus 'twin' trees of 5..7 internal nodes: binary operations / load addresses / branches over two conditionals on the same outer condition whose arms hold independent inner conditionals, judged under all 16 combinations of the conditions): every alternative has e's width and no Less; under each of 9 valuations some alternative has e's value. Non-trivial = tree with more than one alternative. Also the chains of two decided conditionals of C09.",
+		Rule:        "Possibilities(e) on every tree of the C09 spaces (conditionals as operands, branches, conditions and memory-load addresses; up to 2 internal nodes quick, 3 thorough; plus 'twin' trees of 5..7 internal nodes: binary operations / load addresses / branches over two conditionals on the same outer condition whose arms hold independent inner conditionals, judged under all 16 combinations of the conditions): every alternative has e's width and no Less; under each of 9 valuations some alternative has e's value; a second call on the same tree gives the same alternatives. Non-trivial = tree with more than one alternative. Also the chains of two decided conditionals of C09.",
 		Assumptions: []string{"coverage of outcomes is decided on 9 valuations chosen so that each Less takes both branches somewhere"},
 		Run: func(r *eng.Run) {
 			names := []string{"leaf", "t1", "t2", "gadget", "condchain", "twin"}
